@@ -383,11 +383,11 @@ func (e *endpoint) runControl(ph *Phase, phi int) {
 	p := e.peer()
 	for _, st := range ph.Ctl[e.idx] {
 		st := st
-		if !s.wait(func() bool { return p.pos >= st.After || p.done }, func(string) {}) {
+		if !s.waitDep(func() bool { return p.pos >= st.After || p.done }) {
 			return
 		}
 		if st.S != 0 {
-			if !s.wait(func() bool { return e.known[st.S] || p.done }, func(string) {}) {
+			if !s.waitDep(func() bool { return e.known[st.S] || p.done }) {
 				return
 			}
 		}
@@ -406,7 +406,7 @@ func (e *endpoint) runControl(ph *Phase, phi int) {
 			return
 		}
 	}
-	if !s.wait(func() bool { return p.done }, func(string) {}) {
+	if !s.waitDep(func() bool { return p.done }) {
 		return
 	}
 	if ph.EndExact[e.idx] && !e.exact() {
